@@ -6,6 +6,7 @@ import DialsModel.Model.Proto
 import DialsModel.Model.CaseConv
 import DialsModel.Model.RuntimeIO
 import DialsModel.Model.OverlayIO
+import DialsModel.Model.HeapIO
 
 open Dials Dials.Proto
 
@@ -51,6 +52,7 @@ def handle (ss : Session) (line : String) : Session × String :=
   match line.trimAscii.toString.splitOn " " with
   | "cc" :: rest => (ss, handleCC rest)
   | "ov" :: rest => (ss, Overlay.handleOv rest)
+  | "hp" :: rest => (ss, Heap.handleHp rest)
   | "rt" :: rest =>
     let (st, out) := Runtime.handleRt ss.rt rest
     ({ ss with rt := st }, (out.replace "\n" " "))
